@@ -39,7 +39,11 @@ EXCLUSIONS = {}
 
 def tasks(tier):
     b = BOUNDS[tier]
-    return [{"name": "%dx%d/%s" % (r, c, a), "params": {"rows": r, "cols": c, "after": a, "pcap": b["pad_cap"]}, "weight": r * c} for (r, c) in b["shapes"] for a in b["after"]]
+    out = [{"name": "%dx%d/%s" % (r, c, a), "params": {"rows": r, "cols": c, "after": a, "pcap": b["pad_cap"]}, "weight": r * c} for (r, c) in b["shapes"] for a in b["after"]]
+    # larger shapes with a concrete layout (single blanks): every numeral spelling of the table occurs, the symbolic part
+    # is the choice of extra line, terminators and final newline
+    out += [{"name": "%dx%d/%s/concrete-layout" % (r, c, a), "params": {"rows": r, "cols": c, "after": a, "pcap": 0}, "weight": 1} for (r, c) in ((2, 2), (3, 3), (5, 3), (4, 4)) for a in ("last", "O")]
+    return out
 
 
 def harness(ns, params):
@@ -47,7 +51,7 @@ def harness(ns, params):
 
     def run():
         core.OPTS["concretize"] = True
-        ek = fresh_int("extra_kind", 0, len(DF.EXTRA_KINDS) - 1)
+        ek = fresh_int("extra_kind", 0, len(DF.EXTRA_KINDS) - 1 if pcap == 0 else 3)  # the tab-indented comment: concrete-layout tasks (and C09)
         ep = fresh_int("extra_pos", 0, rows)
         crlf = fresh_bool("crlf")
         fnl = fresh_bool("final_newline")
@@ -59,7 +63,7 @@ def harness(ns, params):
         crlf_c, fnl_c = bool(crlf), bool(fnl)
         hdr = DF.header(cols)
         sect = DF.build_data_section(rows, cols, pcap, after, extra_kind, extra_pos, crlf_c, fnl_c)
-        dlines = [l for l in sect if isinstance(l, SymStr)]
+        dlines = [l for l in sect if isinstance(l, SymStr)] if pcap else [" ".join(DF.token(i_, j_, cols) for j_ in range(cols)) for i_ in range(rows)]
         inputs = {"rows": rows, "cols": cols, "after": after, "extra_kind": ek, "extra_pos": ep, "crlf": crlf, "final_newline": fnl, "data_lines": dlines}
         c.inputs = inputs
         apply_exclusions(inputs)
